@@ -3,7 +3,7 @@
 From Coq Require Import ZArith List Bool.
 Import ListNotations.
 Require Import MV.Lib.Base MV.C05.Types MV.C05.Gen MV.C05.Model MV.C05.Run MV.C05.Proofs MV.C05.ProofsInv
-        MV.C05.ProofsMap MV.C05.ProofsAgree MV.C05.ProofsAlias MV.C05.ProofsTop.
+        MV.C05.ProofsMap MV.C05.ProofsAgree MV.C05.ProofsAlias MV.C05.ProofsTop MV.C05.ProofsMore.
 Open Scope Z_scope.
 
 (* (full, on the generated table) _can_be_casted accepts exactly the identity and the widenings bool -> int -> float *)
@@ -245,3 +245,35 @@ Theorem C05_export_shape : forall s a at_ sh k, reachable s -> lookup a (attrs s
   sh = squeeze [sn s; asz at_] /\ k = aty at_ /\ fst (step s (ExportShape a)) = tick s.
 Proof. exact export_shape. Qed.
 Print Assumptions C05_export_shape.
+
+(* (full) "accept and reject the same values", along every history: attr[k] = v is accepted exactly when v is storable
+   (exact arity, every component's type widens bool->int->float to the attribute's, numpy can represent it) - one
+   condition for both storages - and, for the dense storage only, k is an element index *)
+Theorem C05_write_accepted_iff : forall s a at_ k v, reachable s -> lookup a (attrs s) = Some at_ ->
+  (snd (step s (SetItem a k v)) = OOk <->
+   match ast at_ with Dense _ _ _ => 0 <= k < sn s | Sparse _ => True end /\ storable (aty at_) (asz at_) v).
+Proof. exact write_accepted_iff. Qed.
+Print Assumptions C05_write_accepted_iff.
+
+(* (full) attr[k][c] = x - stored, lost or refused - changes what no other entry of any attribute reads *)
+Theorem C05_update_frame : forall s a k c x b j, reachable s -> (b, j) <> (a, k) ->
+  rd (fst (step s (Update a k c x))) b j = rd s b j.
+Proof. exact update_frame. Qed.
+Print Assumptions C05_update_frame.
+
+(* (full, guards = the two listed findings) array export holds what the reads return, row by row, in both storages *)
+Theorem C05_export_is_reads : forall s a at_ rows, reachable s -> lookup a (attrs s) = Some at_ ->
+  snd (step s (AsArray a)) = ORows rows ->
+  match ast at_ with
+  | Dense _ _ _ => True
+  | Sparse m => forall j, In j (map fst m) -> 0 <= j < sn s
+  end ->
+  length rows = Z.to_nat (sn s) /\
+  forall k, 0 <= k < sn s ->
+            match ast at_ with
+            | Dense _ _ _ => True
+            | Sparse m => lookup k m <> None \/ unset_read (hp s) at_ = default_row (hp s) at_
+            end ->
+            rd s a k = Some (nth (Z.to_nat k) rows []).
+Proof. exact export_is_reads. Qed.
+Print Assumptions C05_export_is_reads.
